@@ -1,6 +1,33 @@
 (* Proofs/Concat.v — lemmas about Model/Concat.v (generic chunk concatenation). *)
 From Eino Require Import Base.Util Model.ConcatTable Model.Concat.
 
+(* What a function registered by the application must satisfy for the theorems to hold
+   (the code calls it on the chunk list as it is, so the laws are the user's business):
+   it never panics, and it is itself invariant under re-chunking.  It is never called on
+   fewer than two chunks (concatSliceValue / concatStreamReader return a single chunk as it is). *)
+Class UserLaw {U : UserFn} : Prop := {
+  ulaw_total : forall tag g ps, ufn tag = Some g -> g ps <> Panic;
+  ulaw_rechunk : forall tag g xs ys, ufn tag = Some g -> 2 <= List.length xs -> ys <> [] ->
+    match g xs with
+    | Ok c =>
+        match g (c :: ys), g (xs ++ ys) with
+        | Ok a, Ok b => a = b
+        | Ok _, _ => False
+        | _, Ok _ => False
+        | _, _ => True
+        end
+    | _ => is_ok (g (xs ++ ys)) = false
+    end
+}.
+
+(* no registered function at all: the laws hold trivially *)
+Definition no_user : UserFn := {| ufn := fun _ => None |}.
+Lemma no_user_law : @UserLaw no_user.
+Proof. split; cbn; intros; discriminate. Qed.
+
+Section User.
+Context {U : UserFn} {L : UserLaw}.
+
 Lemma res_mapM_no_panic {A B} (f : A -> res B) l :
   (forall a, In a l -> f a <> Panic) -> res_mapM f l <> Panic.
 Proof.
@@ -37,7 +64,10 @@ Proof.
   intros Hf. unfold concat_typed. destruct t.
   - destruct vs as [|v [|w l]]; try discriminate; rewrite registered_str; discriminate.
   - destruct vs as [|v [|w l]]; try discriminate; rewrite registered_num; discriminate.
-  - destruct vs as [|v [|w l]]; try discriminate; apply single_nonzero_no_panic.
+  - destruct vs as [|v [|w l]]; try discriminate; cbn [registered user_registered];
+      (destruct (ufn tag) as [g|] eqn:Eg; [|apply single_nonzero_no_panic]).
+    + pose proof (ulaw_total tag g (payloads []) Eg) as H. destruct (g _); cbn; congruence.
+    + pose proof (ulaw_total tag g (payloads (v :: w :: l)) Eg) as H. destruct (g _); cbn; congruence.
   - specialize (Hf (maps vs)). destruct (f (maps vs)); cbn; congruence.
 Qed.
 
@@ -74,3 +104,5 @@ Proof.
   - pose proof (concat_maps_no_panic (S (depth_list (CMap mt m :: v1 :: l))) (maps (CMap mt m :: v1 :: l))) as H.
     destruct (concat_maps _ _); cbn; congruence.
 Qed.
+
+End User.
